@@ -110,6 +110,7 @@ func (s *Server) ServeConn(c net.Conn) error {
 	sc.currentWindow = sc.maxWindow
 
 	sc.st.Reset()
+	sc.clientS.Reset()
 	sc.st.SetMaxWindowSize(uint32(sc.maxWindow))
 	sc.st.SetMaxConcurrentStreams(uint32(s.cnf.MaxConcurrentStreams))
 
